@@ -335,6 +335,16 @@ class C04(Property):
             h.setdefault(k, v)
         return h.get(un) == uv or h.get(an) == av
 
+    def _srv_amb(self, q):
+        """not exempt by the literal test, but a websocket upgrade / event-stream request by a reasonable reading"""
+        if not q.get("hdrs") or self._srv_exempt(q):
+            return False
+        (un, uv), (an, av) = self.consts["exempt"]
+        h = {}
+        for k, v in q["hdrs"]:
+            h.setdefault(k, v)
+        return uv.lower() in h.get(un, "").lower() or av.lower() in h.get(an, "").lower()
+
     def _gen_srv(self, rng, n):
         cases = []
         while len(cases) < n:
@@ -802,7 +812,8 @@ class C04(Property):
             hdrs = clist(["(%s, %s)" % (self._bstr(k), self._bstr(v)) for k, v in rin.get("hdrs", [])])
             rs.append("(mkSR %s)" % " ".join([
                 cbool(rin.get("fl", False)), self._hdrs(rin["h0"]), clist([self._act(a) for a in rin["script"]]),
-                copt(dmode), hdrs, self._optz(rin.get("parent_ns")), "%d%%nat" % rin.get("group", 0), sout]
+                copt(dmode), hdrs, cbool(self._srv_amb(rin)), self._optz(rin.get("parent_ns")),
+                "%d%%nat" % rin.get("group", 0), sout]
                 + self._wfields(ro["w"]) +
                 [cbool(ro["wrapped"]), self._optz(ro["dl_seen_ns"] if ro["has_dl"] else None),
                  cz(ro["t0_ns"]), cz(ro["t1_ns"])]))
